@@ -389,8 +389,19 @@ class PathCtx:
                 self.fork_count[site] = nf
                 if nf > self.max_forks_per_site and not str(site).startswith("split:"):
                     raise Unwound("site %s forked more than %d times" % (site, self.max_forks_per_site))
-                out = True
-                self.pending.append(self.decisions + [False])
+                # follow an outcome exhibited by a concrete witness; an alternative that is only
+                # "not refuted" by the over-approximating feasibility solver is explored with low priority
+                wit_t = pv is None or any(v is True for v in pv) if (has_t or has_f) else None
+                wit_f = pv is None or any(v is False for v in pv) if (has_t or has_f) else None
+                if wit_t is None or (wit_t and wit_f):
+                    out = True
+                    self.pending.append((self.decisions + [False], 0))
+                elif wit_t:
+                    out = True
+                    self.pending.append((self.decisions + [False], 1))
+                else:
+                    out = False
+                    self.pending.append((self.decisions + [True], 1))
                 self.forks.append(site)
             elif ft:
                 out = True
@@ -461,11 +472,19 @@ def explore(fn, unwind=3, max_paths=200, max_decisions=60, feas_timeout_ms=3000,
     """
     stats = stats or Stats()
     stack = [[]]
+    low = []  # speculative alternatives (no concrete witness): explored after the witnessed ones
+    n_spec = 0
     results = []
-    while stack and len(results) < max_paths:
+    while (stack or low) and len(results) < max_paths:
         if deadline is not None and time.time() > deadline:
             break
-        prefix = stack.pop()
+        if stack:
+            prefix = stack.pop()
+        else:
+            if n_spec >= max(4, max_paths // 4):
+                break  # speculative alternatives beyond the budget stay unexplored (counted as leftover)
+            n_spec += 1
+            prefix = low.pop(0)
         c = PathCtx(prefix, unwind=unwind, max_decisions=max_decisions, feas_timeout_ms=feas_timeout_ms, stats=stats,
                     max_forks_per_site=max_forks_per_site, split=split)
         T.set_ctx(c)
@@ -487,6 +506,6 @@ def explore(fn, unwind=3, max_paths=200, max_decisions=60, feas_timeout_ms=3000,
         res.wall = time.time() - t0
         results.append(res)
         # depth-first: explore alternatives of the deepest decision first
-        for alt in c.pending:
-            stack.append(alt)
-    return results, len(stack)
+        for alt, prio in c.pending:
+            (low if prio else stack).append(alt)
+    return results, len(stack) + len(low)
